@@ -43,6 +43,7 @@ import (
 //   c14 par <thr> <client> <n> <nonce> <overlap|plain>   one request to n servers at once
 //        (SendProtobufParallelWithDecoder); overlap: a decoder that makes two replies overlap
 //   c14 all <thr> <client> <n> <path> <hex>   the same request to n servers one after the other (Client.SendToAll)
+//   c14 direct <path> <hex>   Service.ProcessClientRequest of the first server called directly (no websocket)
 //   c14 barrier
 //   c14 procs <n>      GOMAXPROCS of the (sub-)process running the server and the clients
 //   c14 calls
@@ -51,7 +52,7 @@ import (
 // time-out, r… raw pipelining connection, x… onet.Client for a service name that does not exist,
 // u… single-use client addressing the server by host and port (identity without URL), p… kept-alive
 // client that sends decodable requests through Client.SendProtobuf.
-// par modes: overlap | plain | ordered (ParallelOptions: DontShuffle, StartNode 1, Parallel 2, node 2
+// par modes: overlap | plain | ordered (ParallelOptions: DontShuffle, StartNode 2, Parallel 1, node 2
 // ignored: the node handed back must be one of the nodes that may be asked) | quit (QuitError).
 //
 // body: `-` (no body) | `syntax` | `{}` | items separated by `;`:
@@ -93,9 +94,10 @@ func (e *c14env) doPar(tk []string) string {
 	mayAsk := map[string]bool{}
 	switch tk[6] {
 	case "ordered":
-		opt = &onet.ParallelOptions{DontShuffle: true, StartNode: 1, Parallel: 2, AskNodes: n - 1,
+		// the list starts at node 2, which is to be ignored; one node is asked at a time
+		opt = &onet.ParallelOptions{DontShuffle: true, StartNode: 2, Parallel: 1, AskNodes: n - 2,
 			IgnoreNodes: []*network.ServerIdentity{e.srvs[2].ServerIdentity}}
-		for i := 1; i < n; i++ {
+		for i := 0; i < n; i++ {
 			if i != 2 {
 				mayAsk[string(e.srvs[i].ServerIdentity.Address)] = true
 			}
@@ -162,6 +164,27 @@ func (e *c14env) doPar(tk []string) string {
 		return "ok pair"
 	}
 	return fmt.Sprintf("mismatch node=%s reply-of=%s nonce=%d", node.Address, got.Addr, got.Nonce)
+}
+
+// doDirect calls ProcessClientRequest of the first server's service instance.
+func (e *c14env) doDirect(tk []string) string {
+	buf, ok := c14hex(tk[3])
+	if !ok {
+		return "bad-op"
+	}
+	rep, tun, err := e.srv.Service(c14ServiceName).ProcessClientRequest(nil, tk[2], buf)
+	if err != nil {
+		f := strings.Fields(c14wsErr(err))
+		return "err " + f[len(f)-1]
+	}
+	if tun != nil {
+		return "tunnel"
+	}
+	r, ok := c14decodeReply(rep)
+	if !ok {
+		return "undecodable-reply " + h.Hex(rep)
+	}
+	return "ok " + c14showReply(r)
 }
 
 // doAll sends one request to the first n servers one after the other
@@ -665,6 +688,9 @@ func c14exec(c *h.Ctx, cs *h.Case) {
 				order = append(order, tk[2])
 			}
 			threads[tk[2]] = append(threads[tk[2]], c14job{i, tk})
+		case len(tk) == 4 && tk[0] == "c14" && tk[1] == "direct":
+			flush()
+			cs.Impl[i] = e.doDirect(tk)
 		case len(tk) == 2 && tk[0] == "c14" && tk[1] == "barrier":
 			flush()
 			cs.Impl[i] = "ok"
@@ -703,6 +729,10 @@ func c14owed(tk []string, kept *[]byte) (kind, want string, called bool) {
 	reply := func(tag string, a int64, s string, b []byte) (string, string, bool) {
 		if c14IsBad(s) {
 			return "error", "", true
+		}
+		if s == c14NilReply {
+			// the handler produced no reply and no error: the property does not say how that is rendered
+			return "any", "", true
 		}
 		if s == "slow" && tk[1] == "ws" && strings.HasPrefix(tk[3], "q") && (tag == "Echo" || tag == "Swap") {
 			// the client gives up before the reply comes: an error for this request only
@@ -856,6 +886,25 @@ func c14oracle(cs *h.Case) {
 			classes["par:"+strings.Fields(obs + " -")[0]] = true
 			if obs != "ok pair" {
 				cs.Fail("c14:wrong-reply:parallel", fmt.Sprintf("request %d %q: the reply handed back is not the reply of the node handed back: %s", i, op, obs))
+			}
+			continue
+		}
+		if len(tk) == 4 && tk[1] == "direct" {
+			wtk := []string{"c14", "ws", "td", "kdirect", tk[2], tk[3]}
+			classes["direct:"+strings.Fields(obs + " -")[0]] = true
+			kind, want, called := c14owed(wtk, &kept)
+			if called {
+				wantCalls++
+			}
+			switch kind {
+			case "reply":
+				if obs != "ok "+want {
+					cs.Fail("c14:wrong-reply:direct", fmt.Sprintf("request %d %q was answered %q, the reply computed for exactly this request is %q", i, op, obs, want))
+				}
+			case "error":
+				if !strings.HasPrefix(obs, "err ") {
+					cs.Fail("c14:error-not-reported:direct", fmt.Sprintf("request %d %q must be answered with an error, got %q", i, op, obs))
+				}
 			}
 			continue
 		}
@@ -1038,6 +1087,9 @@ func (g *c14gen) wsBuf(kindHint int) (string, string) {
 		}
 		return h.Hex(b), "partial"
 	case k < 13:
+		if r.Intn(6) == 0 {
+			return h.Hex(valid(c14NilReply)), "nil-reply"
+		}
 		return h.Hex(valid(c14Bad[r.Intn(len(c14Bad))])), "failing"
 	case k < 15: // truncated valid encoding
 		b := valid(g.okstr())
@@ -1144,6 +1196,9 @@ func (g *c14gen) restReq(res string) (string, string) {
 		case k < 13:
 			return "{}", "empty-object"
 		case k < 14:
+			if r.Intn(6) == 0 {
+				return "S=" + h.Hex([]byte(c14NilReply)) + ";" + item("A"), "nil-reply"
+			}
 			return "S=" + h.Hex([]byte(c14Bad[r.Intn(len(c14Bad))])) + ";" + item("A"), "failing"
 		case k < 15:
 			f := []string{"A", "S", "B"}[r.Intn(3)]
@@ -1349,6 +1404,21 @@ func c14genCases(c *h.Ctx, yield func(*h.Case)) {
 		emit(cs)
 	}
 
+	{
+		// a handler that returns neither a reply nor an error; ProcessClientRequest called directly
+		cs := &h.Case{Class: "corpus:nil-reply-and-direct"}
+		enc := func(a int64, s string) string {
+			b, _ := protobuf.Encode(&C14Echo{A: a, S: s, B: []byte{9}})
+			return h.Hex(b)
+		}
+		cs.Ops = append(cs.Ops, "c14 ws t1 k1 C14Echo "+enc(1, c14NilReply), "c14 ws t1 k1 C14Echo "+enc(2, "after"),
+			"c14 rest t1 k1 POST json C14Post - S="+hx(c14NilReply), "c14 rest t1 k1 POST json C14Post - S="+hx("after"),
+			"c14 barrier", "c14 direct C14Echo "+enc(3, "three"), "c14 direct C14Nope "+enc(4, "four"), "c14 direct C14Post "+enc(4, "four"),
+			"c14 direct C14Swap ff", "c14 direct C14Both "+enc(5, "fail"), "c14 direct C14Echo "+enc(6, "panicint"),
+			"c14 direct C14Swap "+enc(7, c14NilReply), "c14 direct C14Keep "+enc(8, "eight"), "c14 direct C14Keep "+enc(9, "nine"))
+		emit(cs)
+	}
+
 	n := c.Pick(140, 2500)
 	for it := 0; it < n && !c.TooManyFails(); it++ {
 		if it%2 == 0 {
@@ -1493,9 +1563,6 @@ func c14genCases(c *h.Ctx, yield func(*h.Case)) {
 				mode := []string{"overlap", "overlap", "plain", "ordered", "quit"}[r.Intn(5)]
 				c.Count("par:" + mode)
 				nn := 3 + r.Intn(3)
-				if mode == "ordered" && nn == 3 {
-					nn = 4 // node 0 is skipped and node 2 ignored: at least two nodes remain
-				}
 				cs.Ops = append(cs.Ops, fmt.Sprintf("c14 par t%d %s %d %d %s", r.Intn(nthr), cl, nn, 100+g.int(false)%1000000, mode))
 			}
 			emit(cs)
@@ -1518,6 +1585,16 @@ func c14genCases(c *h.Ctx, yield func(*h.Case)) {
 				wsop(cs, thr, cl, path, hint)
 			}
 			g.narrow = false
+			emit(cs)
+		}
+		if it%10 == 5 {
+			// ProcessClientRequest without a websocket in between
+			cs = &h.Case{Class: "direct"}
+			for i, m := 0, 3+r.Intn(8); i < m; i++ {
+				buf, kind := g.wsBuf(-1)
+				c.Count("direct:" + kind)
+				cs.Ops = append(cs.Ops, fmt.Sprintf("c14 direct %s %s", g.wsPath(), buf))
+			}
 			emit(cs)
 		}
 		if it%10 == 0 {
